@@ -168,7 +168,8 @@ Section WithFacts.
   Variable pk : pick.                  (* Gen: which matching candidate is returned *)
   Variable drule : droprule.           (* Gen: default of drop_extra_fields from decode_into_subclasses *)
   Variable dis_absent : bool.          (* Gen: default of getattr(cls, "decode_into_subclasses", ..) *)
-  Variable child_drop : bool.          (* Gen: drop_extra_fields passed when re-entering from_dict with the chosen subclass *)
+  Variable child_drop : option bool.   (* Gen: drop_extra_fields passed when re-entering from_dict with the chosen subclass
+                                          (None = not passed: re-derived from the chosen class's own attribute) *)
 
   Variable h : hier.                   (* the classes, registration order *)
   Variable modname : string.           (* module the classes live in: `_type_` holds module + "." + qualname *)
@@ -177,6 +178,10 @@ Section WithFacts.
   Definition dis_of (n : string) : bool :=
     match assoc n (dis_table dis_absent h) with Some b => b | None => dis_absent end.
   Definition drop_default (dis : bool) : bool := match drule with DropNotDis => negb dis | DropDis => dis end.
+
+  (* `if drop_extra_fields is None: drop_extra_fields = not cls.decode_into_subclasses` *)
+  Definition resolve_drop (n : string) (dropo : option bool) : bool :=
+    match dropo with Some b => b | None => drop_default (dis_of n) end.
 
   Definition qual (c : string) : string := modname ++ "." ++ c.
   (* _locate on a name written by to_dict: the class of that module with that name, else ImportError *)
@@ -217,7 +222,7 @@ Section WithFacts.
      (cand_names: the init ones only, or all of them). *)
   Definition build (dec : (string -> option fty) -> bool -> list (string * res value)) (keys : list string)
              (c : cdecl) (dropo : option bool) : res value :=
-    let drop := match dropo with Some b => b | None => drop_default (dis_of (c_name c)) end in
+    let drop := resolve_drop (c_name c) dropo in
     match collect (c_fields c) (dec (ftype_of c) drop) with
     | Err e => Err e
     | Ok present =>
@@ -229,7 +234,7 @@ Section WithFacts.
                  | None => Err (Raise "RuntimeError")        (* cls(..init_args) with the unknown keys *)
                  | Some child =>
                      (* return from_dict(child_class, d, drop_extra_fields=False) *)
-                     match collect (c_fields child) (dec (ftype_of child) child_drop) with
+                     match collect (c_fields child) (dec (ftype_of child) (resolve_drop (c_name child) child_drop)) with
                      | Err e => Err e
                      | Ok present2 =>
                          match extras_of child keys with
